@@ -268,10 +268,16 @@ def run(ctx):
             rows["load"] = ld
             try:
                 if ld.get("ok"):
-                    for op, _vsx, _vds, cases in plan:
+                    for op, _vsx, vds, cases in plan:
                         m = scen.method_name(op.name.value)
+                        # the parameter of each variable, read off the LOADED signature (required first, relative
+                        # order kept - C03_required_first_is_permutation); falls back to the mangled name
+                        order = [n for n, t, _d in vds if isinstance(t, GraphQLNonNull)] + \
+                                [n for n, t, _d in vds if not isinstance(t, GraphQLNonNull)]
+                        real = [p[0] for p in (ld.get("methods", {}).get(m, {}).get("params") or []) if p[3] != "VAR_KEYWORD"]
+                        pmap = dict(zip(order, real)) if len(real) == len(order) else {}
                         for c in cases:
-                            enc = {scen.param_name(n, g.snake): v.enc for n, v in c.vals.items() if v is not OMIT}
+                            enc = {pmap.get(n, scen.param_name(n, g.snake)): v.enc for n, v in c.vals.items() if v is not OMIT}
                             intended = {n: v.intent for n, v in c.vals.items() if v is not OMIT}
                             c.real = g.driver.ask({"cmd": "call_args", "method": m, "args": enc, "intended": intended})
             finally:
@@ -384,8 +390,8 @@ def check_scenario(ctx, g, plan, rows, genres, stats):
     else:
         run.dist("load", "ok")
         if any_sig_bad:
-            run.violation("model predicts a SyntaxError in client.py but the package imports",
-                          {"schema": g.sc.sdl, "queries": g.sc.queries, "config": g.res.get("config")}, found_input=False)
+            argenc.k1v(run, "K1 model predicts a SyntaxError in client.py but the package imports",
+                       {"schema": g.sc.sdl, "queries": g.sc.queries, "config": g.res.get("config")}, found_input=False)
 
 
 def classify(names_ok, inputs_ok, f10_bad, involved, f21=False):
